@@ -56,15 +56,37 @@ def parseInst (bs b0 lim uf term instrs src tgt terms : String) : Option Inst :=
   some { bs := bs, b0 := b0, intLimit := lim, thetaUF := uf == "1", terminal := term == "1", instrs := ins,
          src := (splitNE' src ",").map parseSV, tgt := (splitNE' tgt ",").map parseSV, term := tm }
 
-/-- ENC: `ok <instOk> <all raw trees well sorted>` followed by the built core constraints, tab separated -/
-def handleEnc (bs b0 lim uf term instrs src tgt terms : String) : String :=
-  match parseInst bs b0 lim uf term instrs src tgt terms with
+def isAtomF : F → Bool
+  | .atom _ _ _ => true
+  | _ => false
+
+/-- the constraints that make values identify stack variables, per term encoding, and the executable premises of
+    the matching theorem (`inj_uf`, `inj_stackVars`, `inj_int`) -/
+def injPart (I : Inst) (mode : String) : List F × Bool :=
+  if mode == "uf" || mode == "ui" then
+    ((if I.term.length > 1 then [distinctRaw I] else []),
+      svsOk I && !hasPushBasic I && I.term.all (fun p => isAtomF p.2))
+  else if mode == "sv" then
+    let initial : Int := if hasPushBasic I then I.intLimit else 0
+    (initVarsRaw I initial, svsOk I && I.term.all (fun p => !p.2.isBoolSorted && isAtomF p.2))
+  else
+    ([], svsOk I && intTermsOk I)
+
+/-- ENC: `ok <instOk> <all raw trees well sorted> <premises of the injectivity theorem>`, then the built core
+    constraints, then `#inj` and the built injectivity constraints; tab separated -/
+def handleEnc (bs b0 lim mode term instrs src tgt terms : String) : String :=
+  match parseInst bs b0 lim (if mode == "uf" then "1" else "0") term instrs src tgt terms with
   | none => "error:parse"
   | some I =>
     match coreRaw I, coreBuilt I with
     | some raws, some built =>
-      let ws := raws.all F.ws
-      s!"ok {if instOk I then 1 else 0} {if ws then 1 else 0}" ++ "\t" ++ "\t".intercalate (built.map showF)
+      let (injRaws, injOk) := injPart I mode
+      let ws := raws.all F.ws && injRaws.all F.ws
+      match injRaws.mapM (fun f => match build f with | .ok r => some r | .error _ => none) with
+      | none => "error:constructor-raises"
+      | some injBuilt =>
+        s!"ok {if instOk I then 1 else 0} {if ws then 1 else 0} {if injOk then 1 else 0}" ++ "\t" ++
+          "\t".intercalate (built.map showF ++ ["#inj"] ++ injBuilt.map showF)
     | none, _ => "error:stack-variable-without-term"
     | _, none => "error:constructor-raises"
 
